@@ -560,3 +560,48 @@ cu('htp_parse_response_header_generic', 'htp_response_generic.c',
             '(precondition "source range lies inside the input line" asserted at every call; that the copy is byte-identical is C17 + the bounded units); bstr_free by an ownership-logging stub',
             'htp_is_space / htp_is_lws / htp_is_token: the real code (htp_util.c linked)',
             'KNOWN_F_C02_RESP_HDR_LEN0 (default on): the line is not empty after removing CR / LF (finding F1)'])
+
+# ---- Basic credentials: user-id = bytes before the FIRST colon of the decoded text, password = everything after it (RFC 7617) ----
+AB_H = r'''
+typedef struct { unsigned char dec[N]; size_t dl; unsigned char ws; } vin_t;
+static unsigned char ab_dec[N]; static size_t ab_dl; static int ab_calls;
+/* stand-in for the base64 decoder: answers with the harness' decoded text (any bytes, length 1..N), allocation may fail.
+ * The real decoder is a separate unit (c18_base64_decode_mem); what is checked here is the SPLIT of the decoded text. */
+bstr *v_stub_b64(const void *data, size_t len) { ab_calls++; return bstr_dup_mem(ab_dec, ab_dl); }
+static struct { bstr b; unsigned char d[12]; } ab_val;
+void HARNESS(void) { VIN(vin_t);
+  VASSUME(in.dl >= 1 && in.dl <= N);
+  static htp_connp_t C; static htp_tx_t TX; static htp_header_t H;
+  for (size_t i = 0; i < N; i++) ab_dec[i] = in.dec[i];
+  ab_dl = in.dl; ab_calls = 0;
+  memcpy(ab_val.d, (in.ws & 1) ? "Basic  QUJD" : "Basic QUJDRA", 12); ab_val.b.len = 11 + !(in.ws & 1); ab_val.b.size = 12; ab_val.b.realptr = NULL;
+  C.in_tx = &TX; TX.connp = &C; H.value = &ab_val.b;
+  int rc = htp_parse_authorization_basic(&C, &H);
+  VASSERT(rc == HTP_OK || rc == HTP_DECLINED || rc == HTP_ERROR, "documented return codes");
+  VASSERT(ab_calls == 1, "the credentials text is decoded once");
+  size_t colon = N; for (size_t i = N; i-- > 0; ) if (i < in.dl && in.dec[i] == ':') colon = i;      /* FIRST colon (RFC 7617: the user-id cannot contain one, the password may) */
+  VASSERT((rc == HTP_DECLINED) ==> 1, "");
+  if (rc == HTP_DECLINED) VASSERT(colon == N, "DECLINED only when the decoded text has no colon");
+  if (rc == HTP_OK) {
+    VASSERT(colon < N, "OK only when the decoded text has a colon");
+    bstr *u = TX.request_auth_username, *p = TX.request_auth_password;
+    VASSERT(u != NULL && p != NULL, "OK: both credentials reported");
+    if (u != NULL && p != NULL && colon < N) {
+      VASSERT(bstr_len(u) == colon, "user-id = the bytes before the FIRST colon (length)");
+      VASSERT(bstr_len(p) == in.dl - colon - 1, "password = everything after the first colon, further colons included (length)");
+      for (size_t i = 0; i < N; i++) if (i < colon && i < bstr_len(u)) VASSERT(bstr_ptr(u)[i] == in.dec[i], "user-id bytes as sent");
+      for (size_t i = 0; i < N; i++) if (colon + 1 + i < in.dl && i < bstr_len(p)) VASSERT(bstr_ptr(p)[i] == in.dec[colon + 1 + i], "password bytes as sent");
+    }
+  } else VASSERT(TX.request_auth_username == NULL && TX.request_auth_password == NULL, "no credentials reported unless OK");
+  bstr_free(TX.request_auth_username); bstr_free(TX.request_auth_password);
+  TX.request_auth_username = NULL; TX.request_auth_password = NULL;
+  CANARY(); }'''
+UNITS.append(U(
+    name='ref_authorization_basic_split', props=['C02'], kind='bounded', src=['htp_parsers.c'], link=['bstr.c'], replay='vin',
+    pre='#define htp_base64_decode_mem v_stub_b64\n', harness=AB_H.replace('  VASSERT((rc == HTP_DECLINED) ==> 1, "");\n', ''),
+    defs={'quick': {'N': 6}, 'thorough': {'N': 10}},
+    flags_add=['--unwind', '14', '--unwinding-assertions', '--memory-leak-check'], flags_del=['--unsigned-overflow-check'], timeout=(600, 3000),
+    bound='all decoded credential texts of every length 1..N (quick N=6, thorough N=10) over all byte values; header value "Basic" + one or two spaces + base64 text',
+    assumes=['htp_base64_decode_mem replaced by a stand-in that returns the harness\' decoded text (the split, not base64, is under test); every allocation may fail'],
+    sub='real htp_parse_authorization_basic: user-id = bytes before the FIRST colon of the decoded text, password = all bytes after it (RFC 7617), DECLINED iff there is no colon; '
+        'nothing reported unless OK; no leak'))
